@@ -63,7 +63,7 @@ def mode_run(job, out):
         if tracer:
             tracer.start()
         try:
-            r = m.execute(hist)
+            r = m.execute(hist, {"float_digest": bool(job.get("emit_chain"))})
         finally:
             if tracer:
                 tracer.stop()
@@ -76,7 +76,7 @@ def mode_run(job, out):
         shapes.add(r["shape"])
         line = {"k": k, "run_seed": hist["run_seed"], "ops": dg, "chain": r["chain"], "nv": len(r["violations"])}
         if job.get("emit_chain"):
-            line["detail_digest"] = hashlib.sha256(json.dumps(r.get("detail", []), sort_keys=True, default=str).encode()).hexdigest()[:16]
+            line["detail_digest"] = r.get("float_digest")
         out.write(json.dumps({"type": "run", **line}) + "\n")
         if r["violations"]:
             out.write(json.dumps({"type": "violation", "k": k, "history": hist, "violations": r["violations"], "chain": r["chain"]}) + "\n")
